@@ -676,7 +676,10 @@ def formula_grammar(table):
     separator = space+Literal('+').suppress()+space
 
     # Lookup the element in the element table
-    symbol = Regex("[A-Z][a-z]?")
+    # Note: a bare 'L' is the litre unit of a mixture ("2L H2O@1 // 10g NaCl"),
+    # not an element.  Failing the match here, rather than raising "unknown
+    # element L" from the table lookup, lets the parser go on to the mixture forms.
+    symbol = Regex("(?!L(?![a-z]))[A-Z][a-z]?")
     symbol = symbol.setParseAction(lambda s, l, t: table.symbol(t[0]))
 
     # Translate isotope
